@@ -886,9 +886,7 @@ Qed.
 
 (** * 6. What the scanner returns: command-line occurrences of arguments of the command; an argument that
     takes no value occurs without one *)
-Definition wscanned (c : cmd) (o : occ) : Prop :=
-  In (o_arg o) (c_args c) /\ o_src o = SCmdLine /\ (a_takes_value (o_arg o) = false -> o_raw o = []).
-
+(** ([wscanned] is defined in ActionsTop.v) *)
 Definition pend_scanned (c : cmd) (p : option wpending) : Prop :=
   match p with Some (_, a, _, _) => In a (c_args c) /\ a_takes_value a = true | None => True end.
 
